@@ -208,6 +208,11 @@ def gen_script(rng, n, deep=False):
                 out += ['b', 's']
             out += ['r', 's', 'n']
             return out
+        if rng.random() < 0.2:
+            # forward / backward bursts whose lengths sit on powers of two (snapshot intervals, ring buffers)
+            pw = rng.choice([64, 128, 256])
+            out += ['n'] * pw + ['p'] * rng.choice([1, 2]) + ['n'] * (pw + rng.choice([1, 2, 3])) + ['p'] * rng.choice([1, 2, pw]) + ['s', 'n', 's']
+            return out
         nback = rng.choice([1, 5, 30, 63, 64, 65, 70, 100, 130, rng.randint(1, 160)])
         if rng.random() < 0.6:
             # a breakpoint on the tail behind the loop: ONE `run` executes the whole loop and stops there
@@ -247,7 +252,7 @@ def _case(i):
     deep = rng.random() < 0.25
     if deep:
         # a loop followed by a two-command tail: a breakpoint on the tail makes `run` execute the whole loop
-        name, prog = 'tmpl:countdown(deep)', gen.tmpl_countdown(rng, iters=rng.choice([5, 10, 17, 20, 30, 40, 60]))
+        name, prog = 'tmpl:countdown(deep)', gen.tmpl_countdown(rng, iters=rng.choice([5, 10, 17, 20, 30, 40, 60, 100, 150]))
         prog = prog + [(0, 1, 65, None), (1, 1, rng.choice([1, 2]), None)]
     else:
         name, prog = gen.gen_case(rng, allow_input=False, weights={'random': 0.3, 'template': 0.3, 'mutant': 0.4})
